@@ -143,7 +143,7 @@ Definition bump (b : buf) : buf := set_lb b (fst (lb_modified Lo (b_lb b))).
 Definition slot0 (s : st) : slot := match bufs s with x :: _ => x | [] => None end.
 
 (* path = path[0] == '/' && path[1] == '\0' ? "" : path *)
-Definition canon (p : path) : path := match p with [47%N] => [] | _ => p end.
+Definition canon (p : path) : path := if path_eqb p [47%N] then [] else p.
 
 Definition has_path (p : path) (x : slot) : bool :=
   match x with Some b => path_eqb (b_path b) p | None => false end.
